@@ -234,3 +234,54 @@ Proof.
   rewrite (all_by_did_is_data_equality _ _ _ Hd Hh) in Hi, Hp, Hl. rewrite map_length in Hl.
   exists r. auto.
 Qed.
+
+(* ---- no node is returned twice -------------------------------------------- *)
+Lemma subseq_refl {X} (l : list X) : subseq l l.
+Proof. induction l; constructor; assumption. Qed.
+Lemma subseq_app_r {X} (a b c : list X) : subseq a b -> subseq a (c ++ b).
+Proof. intros H. induction c as [|x c IH]; [exact H|]. cbn. constructor. exact IH. Qed.
+Lemma subseq_app_l {X} (a b c : list X) : subseq a b -> subseq a (b ++ c).
+Proof.
+  induction 1 as [l|x a b H IH|x a b H IH]; cbn; constructor; assumption.
+Qed.
+Lemma subseq_trans {X} (a b c : list X) : subseq a b -> subseq b c -> subseq a c.
+Proof.
+  intros Hab Hbc. revert a Hab. induction Hbc as [l|x b c H IH|x b c H IH]; intros a Hab.
+  - inversion Hab; subst. constructor.
+  - inversion Hab as [l|y a' b' H'|y a' b' H']; subst.
+    + constructor.
+    + constructor. apply IH. exact H'.
+    + apply sub_skip. apply IH. exact H'.
+  - apply sub_skip. apply IH. exact Hab.
+Qed.
+Lemma subseq_map {X Y} (g : X -> Y) (a b : list X) : subseq a b -> subseq (map g a) (map g b).
+Proof. induction 1; cbn; constructor; assumption. Qed.
+Lemma subseq_NoDup {X} (a b : list X) : subseq a b -> NoDup b -> NoDup a.
+Proof.
+  induction 1 as [l|x a b H IH|x a b H IH]; intros ND.
+  - constructor.
+  - inversion ND as [|y l Hn Hd]; subst. constructor; [|apply IH; exact Hd].
+    intros Hin. apply Hn. exact (subseq_in _ _ H x Hin).
+  - inversion ND as [|y l Hn Hd]; subst. apply IH. exact Hd.
+Qed.
+
+Lemma branch_subseq f s b : start_in f s -> subseq (branch f s b) (pre_f f).
+Proof.
+  destruct s as [|t]; cbn [start_in branch]; intros Hs; [apply subseq_refl|].
+  destruct (pre_f_segment f t Hs) as (a & c & E). rewrite E. apply subseq_app_r, subseq_app_l.
+  destruct b; [apply subseq_refl|]. rewrite pre_unfold. apply sub_skip, subseq_refl.
+Qed.
+
+Lemma ordered_answer_NoDup f s b (p : rt -> bool) k :
+  NoDup (ids f) -> start_in f s -> NoDup (map rid (py_limit k (filter p (branch f s b)))).
+Proof.
+  intros ND Hs. refine (subseq_NoDup _ _ (subseq_map rid _ _ _) ND).
+  eapply subseq_trans; [apply subseq_py_limit, subseq_filter|apply branch_subseq; exact Hs].
+Qed.
+
+Lemma find_all_NoDup f s ms add_self k r :
+  NoDup (ids f) -> start_in f s ->
+  node_find_all (iterator f s) None (Some ms) None add_self k = Ok r -> NoDup (map rid r).
+Proof.
+  intros ND Hs E. rewrite node_find_all_match in E. injection E as <-. apply ordered_answer_NoDup; assumption.
+Qed.
